@@ -7,8 +7,22 @@ query batches.  At every batch the raw table is dumped (SELECT over the
 connection) and every query of the batch is run on the real SQLObject
 (sqlite :memory:): the ORDER BY terms and DISTINCT flag of the statement, the
 selectBy clause, and the result (ids in order / count / aggregate / lookup
-outcome / exception class)."""
+outcome / exception class).
+
+Connection modes: the whole history with all its query batches is run three
+times -- (class) through the class's own connection (sqlite :memory:), as
+above; (percall) every write and every query with a per-call connection= (or a
+.connection() call inside the chain) on a second, FILE-backed sqlite database
+under /verif/.work/, while the class's own database holds decoy rows; (txn)
+the first `txn_at` writes committed on that file database, the rest of the
+history and every query through a Transaction that stays open, so that part
+of the table (inserted / updated / deleted rows) exists only inside it.  The
+expected rows are those VISIBLE THROUGH THAT CONNECTION, dumped through the
+raw DB-API connection (the transaction's own for txn)."""
 import itertools
+import os
+import shutil
+import zlib
 import json
 from fractions import Fraction
 
@@ -23,7 +37,8 @@ From Lib Require Import PyLite QueryPy CorrLib. From Gen Require Import Query. F
 From Corr Require Import C11.
 Notation Sm := Some. Notation Nn := None.
 Notation R i a b s f u := (mkrow i a b s f u).
-Notation Ob s c r := (mkobs s c r).'''
+Notation Ob s c r := (mkobs s c r).
+Notation Bc := BCall.'''
 COQ_CASE_TYPE = 'case'
 COQ_AGREE = 'agree'
 REPLAY_KIND = 'history'
@@ -40,14 +55,28 @@ RULE = ('(1) enumeration: every single ordering item (14 strings incl. -name, id
         'ordering specs (strings, tuples, lists of 1..3 items, DESC nesting, None, defaultOrder), reversed()/distinct()/orderBy() chains, '
         'list / count / sum,min,max,avg / getOne with and without default / by<Col> / index.get positional and named.  (3) a malformed '
         'stream: orderBy=[], unknown raw ordering text, DESC of a string, unknown keyword, both names of the foreign key, count and '
-        'aggregates on sliced selects.  Non-trivial = the batch met two rows tied or NULL under the ordering, or an empty / all-NULL '
+        'aggregates on sliced selects.  (4) connection modes: EVERY case (history and all its query batches) is run three times: through '
+        'the class connection (sqlite :memory:); with a per-call connection (connection= keyword on select / selectBy / by<Col> / '
+        'index.get, or a .connection() call at a drawn position of the chain) to a second, file-backed sqlite database under '
+        '/verif/.work/ while the class\'s own database holds 3 decoy rows; and through a Transaction on that file database that is '
+        'opened after `txn_at` committed writes (drawn: 0, half, all but one, all of the writes before the first batch; enumerated '
+        'tables are built so that half the rows are committed, some with other values, plus an extra row, and the transaction inserts '
+        'the rest, assigns the final values and deletes the extra row) and stays open to the end, so inserted / updated / deleted rows '
+        'exist only inside it.  The oracle judges all three runs of every case against the rows visible through THAT connection; the '
+        'Coq correspondence evaluates the class run of every case and the two other runs of every third case (checksum of the case).  '
+        'Non-trivial = the batch met two rows tied or NULL under the ordering, or an empty / all-NULL '
         'aggregate, or a NULL keyword, or a refused operation; distinct = distinct (history, queries).')
 EXPLANATION = ('Theorems C11_* (Coq; all tables, all ordering specs, all reversed() counts, all filters/keyword sets by induction) over '
                'a model whose _mungeOrderBy, orderBy part of SelectResults.__init__, reversed(), the ORDER BY tail of Select.__sqlrepr__, '
                'DESC.__sqlrepr__, the IS/= choice and foreign-key branch of _SO_columnClause, count(), getOne() and the sum/min/max/avg '
                'table are REGENERATED from the source on this run; correspondence: the model evaluated inside Coq (vm_compute) on every '
                'query of every snapshot against the real SQLObject on sqlite (statement pieces and results; ordered results as '
-               'sorted-permutation); the oracle judges every result directly against Python filter/sorted/sum/min/max over the raw dump.')
+               'sorted-permutation); the oracle judges every result directly against Python filter/sorted/sum/min/max over the raw dump.  '
+               'Connections: the model binds a select to `ops.get(connection) or the class connection` (C11_conn_*: clones keep the '
+               'binding, the last .connection() wins, every operation sees only the bound connection\'s rows, list / count / aggregates / '
+               'getOne of one bound select describe the same rows; C11_txn_view_*: a Transaction sees the committed rows with its own '
+               'writes applied); correspondence and oracle run every query also with a per-call connection to a second file database and '
+               'through a Transaction with uncommitted inserts / updates / deletes, against the rows that connection sees.')
 TRUSTED_BASE = [
     'Coq 8.16.1 kernel + vm_compute (examples, correspondence); no native_compute',
     'tools/py2coq/gen_query.py (+ core.py for count()): transliteration of the named functions; coq/Lib/QueryPy.v and Lib/PyLite.v: '
@@ -59,6 +88,12 @@ TRUSTED_BASE = [
     'fixture: one class, single-table selects, Int/String/ForeignKey columns; string values are compared through order-preserving tokens; '
     'AVG is compared as an exact rational within 2^-40 of the double sqlite returns',
     'sqlmeta.defaultOrder is read when the SelectResults is built (the harness assigns it before each query)',
+    'connection modes: "the rows visible through a connection" are read by the harness through a DB-API connection of its own '
+    '(sqlite3.connect on the file) resp. through the Transaction\'s own DB-API connection (trans._connection) with a plain cursor, '
+    'not through the library; for a Transaction they are also compared with the harness\'s account (committed dump + the writes of '
+    'the successful steps); sqlite file database in rollback-journal mode with PRAGMA synchronous=OFF set on every pooled DB-API '
+    'connection (durability is not under test); isolation is sqlite\'s (a reader on another connection sees the last commit); the '
+    'database files live under /verif/.work/c11_<pid>/ and are removed at the end of the run',
     'the correspondence harness tools/props/c11.py and the cases.v evaluation',
 ]
 
@@ -225,6 +260,8 @@ def rand_query(rng, bad=False):
         q['src'] = ['select', rand_where(rng), rand_oby(rng, bad), rng.random() < 0.15, rng.random() < 0.15]
     q['calls'] = rand_calls(rng, bad)
     q['fin'] = rand_fin(rng)
+    # how a per-call connection is attached (modes percall / txn): None = connection= keyword, k = .connection(X) after k calls
+    q['bind'] = None if rng.random() < 0.6 else rng.randint(0, len(q['calls']))
     if q['fin'][0] in ('agg', 'count') and q['src'][0] == 'select' and rng.random() < 0.6:
         # a wide filter, so that aggregates mostly range over several rows
         q['src'][1] = rng.choice([['true'], ['true'], ['ne', 'a', None], ['ne', 'b', 1], ['or', ['eq', 'a', 1], ['eq', 'a', None]],
@@ -322,6 +359,11 @@ def rand_history(rng, bad=False, maxrows=8, nbatches=None, nq=None):
 
     for _ in range(target):
         create()
+    if rng.random() < 0.5:
+        # updates / deletes before the first batch (in mode txn: of committed rows, inside the transaction)
+        for _ in range(rng.randint(1, 3)):
+            mutate()
+    nfirst = len(steps)
     batch()
     for _ in range((nbatches or rng.randint(1, 4)) - 1):
         for _ in range(rng.randint(1, 4)):
@@ -330,7 +372,8 @@ def rand_history(rng, bad=False, maxrows=8, nbatches=None, nq=None):
             else:
                 mutate()
         batch()
-    return {'steps': steps}
+    # mode txn: this many writes are committed before the transaction begins (the rest happens inside it)
+    return {'steps': steps, 'txn_at': rng.choice([0, nfirst // 2, nfirst // 2, rng.randint(0, nfirst), max(0, nfirst - 1), nfirst])}
 
 
 FIXED_TABLES = [
@@ -346,6 +389,36 @@ FIXED_TABLES = [
 
 def table_steps(t):
     return [['create', dict(zip(['a', 'b', 's', 'fk', 'u'], r)), 'id' if i % 2 else 'obj'] for i, r in enumerate(t)]
+
+
+def table_steps_tx(t):
+    """the same final table, reached with updates and a delete: the first half of the rows is created as it is or with
+    other values of a / b, then an extra row, then (mode txn: inside the transaction) the second half, the assignments that
+    put the right values, and the deletion of the extra row -> (steps, txn_at)"""
+    n = len(t)
+    k = (n + 1) // 2
+    steps, fix = [], []
+    for i, r in enumerate(t):
+        v = dict(zip(['a', 'b', 's', 'fk', 'u'], r))
+        if i % 3 == 1:
+            real = v['a']
+            v['a'] = 2 if real != 2 else None
+            fix.append((i, 'a', real))
+        elif i % 3 == 2 and i % 2 == 0:
+            real = v['b']
+            v['b'] = None if real is not None else 0
+            fix.append((i, 'b', real))
+        steps.append(['create', v, 'id' if i % 2 else 'obj'])
+        if i == k - 1:
+            steps.append(['create', {'a': 1, 'b': 1, 's': None, 'fk': None, 'u': None}, 'id'])
+    if n == 0:
+        steps.append(['create', {'a': 1, 'b': 1, 's': None, 'fk': None, 'u': None}, 'id'])
+    # ids: rows before the extra one keep their position, later ones are shifted by one
+    rid = lambda i: i + 1 if i < k else i + 2
+    for i, c, real in fix:
+        steps.append(['set', rid(i), c, real])
+    steps.append(['destroy' if n % 2 else 'delete', (k + 1) if n else 1])
+    return steps, (k + 1 if n else 1)
 
 
 def sel_query(src, calls=(), fin=('list',), dflt=('nodefault',), sl=None):
@@ -426,10 +499,11 @@ def enum_cases(tables, per=60):
     vq = enum_value_queries()
     for ti in tables:
         t = FIXED_TABLES[ti]
+        st, at = table_steps_tx(t)
         for ch in chunks(oq if ti < 3 else oq[::7], per):
-            out.append({'steps': table_steps(t) + [['q', ch]]})
+            out.append({'steps': st + [['q', ch]], 'txn_at': at})
         for ch in chunks(vq if ti < 2 else vq[::5], per):
-            out.append({'steps': table_steps(t) + [['q', ch]]})
+            out.append({'steps': st + [['q', ch]], 'txn_at': at})
     return out
 
 
@@ -517,6 +591,67 @@ def fixture():
         VerifC11Oth(x=i)
     _FIX.update(conn=conn, T=VerifC11Row, O=VerifC11Oth)
     return _FIX
+
+
+WORK = os.path.join(os.path.dirname(os.path.dirname(os.path.dirname(os.path.abspath(__file__)))), '.work')
+MODES = ['class', 'percall', 'txn']
+CONN_ID = {'class': 0, 'percall': 1, 'txn': 2}
+# what the class's own database holds while a case runs through another connection: id, a, b, s, fk, u
+DECOYS = [[1, 2, 2, 4, 3, 11], [2, -1, None, 0, None, None], [9, 1, 1, 2, 1, 5]]
+
+
+def _alive(pid):
+    try:
+        os.kill(pid, 0)
+        return True
+    except OSError:
+        return False
+
+
+def file_fixture(F):
+    """the second, file-backed database (mode percall / txn): F['fconn'] a plain SQLObject connection to it, F['raw'] a
+    DB-API connection of the harness's own for dumps of the committed contents"""
+    if 'fconn' in F:
+        return F
+    import sqlite3
+    from sqlobject import connectionForURI
+    os.makedirs(WORK, exist_ok=True)
+    for n in os.listdir(WORK):           # left behind by a killed run
+        if n.startswith('c11_') and n[4:].isdigit() and not _alive(int(n[4:])):
+            shutil.rmtree(os.path.join(WORK, n), ignore_errors=True)
+    d = os.path.join(WORK, 'c11_%d' % os.getpid())
+    shutil.rmtree(d, ignore_errors=True)
+    os.makedirs(d)
+    path = os.path.join(d, 'second.db')
+    fconn = connectionForURI('sqlite://' + path + '?timeout=0.3')
+    # durability is not under test: no fsync per autocommitted statement (set on every DB-API connection the pool opens)
+    make = fconn.makeConnection
+
+    def make_nosync():
+        c = make()
+        c.execute('PRAGMA synchronous=OFF')
+        return c
+    fconn.makeConnection = make_nosync
+    F['O'].createTable(connection=fconn)
+    F['T'].createTable(connection=fconn)
+    for i in range(3):
+        F['O'](x=i, connection=fconn)
+    raw = sqlite3.connect(path, isolation_level=None, timeout=0.3)
+    F.update(fconn=fconn, raw=raw, dir=d)
+    return F
+
+
+def cleanup_files(F):
+    for k in ('raw', 'fconn'):
+        c = F.pop(k, None)
+        if c is not None:
+            try:
+                c.close()
+            except Exception:
+                pass
+    d = F.pop('dir', None)
+    if d:
+        shutil.rmtree(d, ignore_errors=True)
 
 
 def py_col_value(c, v):
@@ -656,13 +791,26 @@ def exc_tag(e):
 _DEFAULT = object()
 
 
-def run_query(F, q):
+def bind_of(q, qi):
+    """how a per-call connection is attached to query number qi of a batch: None = the connection= keyword,
+    k = a .connection(X) call after the first k calls of the chain"""
+    if q['k'] != 'sel':
+        return None
+    n = len(q['calls'])
+    if 'bind' in q:
+        return None if q['bind'] is None else min(q['bind'], n)
+    return (qi // 3) % (n + 1) if qi % 3 == 1 else None
+
+
+def run_query(F, q, X=None, bind=None):
+    """X: the per-call connection (None: none is given, the class's own is used)"""
     from sqlobject.sqlbuilder import NoDefault
     T = F['T']
     o = {'sql': None, 'clause': None}
+    ck = {} if X is None else {'connection': X}
     if q['k'] == 'alt':
         try:
-            o['res'] = ['found', T.byU(build_kval(F, 'u', q['v'])).id]
+            o['res'] = ['found', T.byU(build_kval(F, 'u', q['v']), **ck).id]
         except Exception as e:
             o['res'] = [exc_tag(e)]
         return o
@@ -672,19 +820,20 @@ def run_query(F, q):
             try:
                 s, f = build_kval(F, 's', q['s']), build_kval(F, 'fk', q['fk'])
                 if q['mode'] == 'pos':
-                    r = T.ix.get(s, f)
+                    r = T.ix.get(s, f, **ck)
                 elif q['mode'] == 'kw':
-                    r = T.ix.get(s=s, fk=f)
+                    r = T.ix.get(s=s, fk=f, **ck)
                 else:
-                    r = T.ix.get(s=s, fkID=f)
+                    r = T.ix.get(s=s, fkID=f, **ck)
                 o['res'] = ['found', r.id]
             except Exception as e:
                 o['res'] = [exc_tag(e)]
             return o
         try:
             src = q['src']
+            sk = ck if bind is None else {}          # bound by keyword, or later by .connection(X)
             if src[0] == 'select':
-                kw = {}
+                kw = dict(sk)
                 if src[2][0] != 'nodefault':
                     kw['orderBy'] = build_oby(F, src[2])
                 if src[3]:
@@ -696,11 +845,14 @@ def run_query(F, q):
             else:
                 kws = {k: build_kval(F, k, v) for k, v in src[1]}
                 try:
-                    o['clause'] = parse_clause(F['conn']._SO_columnClause(T, dict(kws)))
+                    o['clause'] = parse_clause((X or F['conn'])._SO_columnClause(T, dict(kws)))
                 except TypeError:
                     o['clause'] = None
+                kws.update(sk)
                 sel = T.selectBy(**kws)
-            for c in q['calls']:
+            for ci, c in enumerate(q['calls'] + [['end']]):
+                if bind == ci and X is not None:
+                    sel = sel.connection(X)
                 if c[0] == 'reversed':
                     sel = sel.reversed()
                 elif c[0] == 'distinct':
@@ -741,13 +893,33 @@ def run_query(F, q):
         T.sqlmeta.defaultOrder = None
 
 
+DUMP_SQL = 'SELECT id, a, b, s, fk_id, u FROM tq'
+
+
 def dump(F):
-    rows = F['conn'].queryAll('SELECT id, a, b, s, fk_id, u FROM tq')
+    rows = F['conn'].queryAll(DUMP_SQL)
     return [[r[0], r[1], r[2], tok_of('s', r[3]), r[4], r[5]] for r in rows]
 
 
-def do_step(F, st):
+def dump_raw(dbapi_conn):
+    """the table as a DB-API connection sees it, read without the library"""
+    cur = dbapi_conn.cursor()
+    try:
+        cur.execute(DUMP_SQL)
+        return [[r[0], r[1], r[2], tok_of('s', r[3]), r[4], r[5]] for r in cur.fetchall()]
+    finally:
+        cur.close()
+
+
+def do_step(F, st, X=None, view=None, writes=None):
+    """X: the per-call connection every write goes through (None: the class's own).  view / writes: the harness's own
+    account {id: row} of what that connection should see, and the list of writes made, updated after each successful step"""
     T, O = F['T'], F['O']
+    ck = {} if X is None else {'connection': X}
+
+    def put(i):
+        if writes is not None:
+            writes.append(['put', list(view[i])])
     try:
         if st[0] == 'create':
             v = st[1]
@@ -756,44 +928,127 @@ def do_step(F, st):
                 kw['fk'] = O.get(v['fk'])
             else:
                 kw['fkID'] = v['fk']
-            T(**kw)
+            kw.update(ck)
+            i = T(**kw).id
+            if view is not None:
+                view[i] = [i, v['a'], v['b'], v['s'], v['fk'], v['u']]
+                put(i)
         elif st[0] == 'set':
-            obj = T.get(st[1])
+            obj = T.get(st[1], **ck)
             setattr(obj, PYNAME[st[2]], py_col_value(st[2], st[3]))
+            if view is not None and st[1] in view:
+                view[st[1]][COLIDX[st[2]]] = st[3]
+                put(st[1])
         elif st[0] == 'setmany':
-            obj = T.get(st[1])
+            obj = T.get(st[1], **ck)
             obj.set(**{PYNAME[c]: py_col_value(c, v) for c, v in st[2].items()})
-        elif st[0] == 'destroy':
-            T.get(st[1]).destroySelf()
-        elif st[0] == 'delete':
-            T.delete(st[1])
+            if view is not None and st[1] in view:
+                for c, v in st[2].items():
+                    view[st[1]][COLIDX[c]] = v
+                put(st[1])
+        elif st[0] in ('destroy', 'delete'):
+            if st[0] == 'destroy':
+                T.get(st[1], **ck).destroySelf()
+            else:
+                T.delete(st[1], **ck)
+            if view is not None and st[1] in view:
+                del view[st[1]]
+                writes.append(['del', st[1]])
         return 'ok'
     except Exception as e:
         return type(e).__name__
 
 
-def run_case(F, case):
-    conn, T = F['conn'], F['T']
-    conn.query('DELETE FROM tq')
-    conn.query("DELETE FROM sqlite_sequence WHERE name='tq'")
-    conn.cache.clear()
-    obs = {'snaps': [], 'ops': []}
+def reset_table(c):
+    c.query('DELETE FROM tq')
+    c.query("DELETE FROM sqlite_sequence WHERE name='tq'")
+    c.cache.clear()
+
+
+def txn_start(case):
+    """mode txn: the number of writes committed before the transaction begins (at the latest at the first batch)"""
+    first = 0
     for st in case['steps']:
         if st[0] == 'q':
-            obs['snaps'].append({'rows': dump(F), 'res': [run_query(F, q) for q in st[1]]})
-        else:
-            obs['ops'].append(do_step(F, st))
+            break
+        first += 1
+    at = case.get('txn_at')
+    return first // 2 if at is None else max(0, min(int(at), first))
+
+
+def run_mode(F, case, mode):
+    T = F['T']
+    obs = {'snaps': [], 'ops': []}
+    if mode == 'class':
+        reset_table(F['conn'])
+        for st in case['steps']:
+            if st[0] == 'q':
+                obs['snaps'].append({'rows': dump(F), 'res': [run_query(F, q) for q in st[1]]})
+            else:
+                obs['ops'].append(do_step(F, st))
+        return obs
+    fconn = F['fconn']
+    reset_table(fconn)
+    if mode == 'percall':
+        for st in case['steps']:
+            if st[0] == 'q':
+                obs['snaps'].append({'rows': dump_raw(F['raw']), 'other': DECOYS,
+                                     'res': [run_query(F, q, fconn, bind_of(q, qi)) for qi, q in enumerate(st[1])]})
+            else:
+                obs['ops'].append(do_step(F, st, fconn))
+        return obs
+    at = txn_start(case)
+    obs['at'] = at
+    trans, view, writes, nops = None, None, None, 0
+    try:
+        for st in case['steps']:
+            if trans is None and (st[0] == 'q' or nops >= at):
+                committed0 = dump_raw(F['raw'])
+                view = {r[0]: list(r) for r in committed0}
+                writes = []
+                trans = fconn.transaction()
+            if st[0] == 'q':
+                obs['snaps'].append({'rows': dump_raw(trans._connection), 'other': DECOYS, 'committed': dump_raw(F['raw']),
+                                     'committed0': committed0, 'writes': [list(w) for w in writes],
+                                     'res': [run_query(F, q, trans, bind_of(q, qi)) for qi, q in enumerate(st[1])]})
+            else:
+                obs['ops'].append(do_step(F, st, fconn) if trans is None else do_step(F, st, trans, view, writes))
+                nops += 1
+    finally:
+        if trans is not None:
+            try:
+                trans.rollback()
+            except Exception:
+                pass
+    return obs
+
+
+def run_case(F, case):
+    obs = run_mode(F, case, 'class')
+    modes = [m for m in (case.get('modes') or MODES) if m in ('percall', 'txn')]
+    if modes:
+        file_fixture(F)
+        # the class's own database now holds rows that no query of the other modes may see
+        reset_table(F['conn'])
+        for r in DECOYS:
+            F['conn'].query('INSERT INTO tq (id, a, b, s, fk_id, u) VALUES (%s)' % ', '.join(
+                'NULL' if v is None else ("'%s'" % STRS[v] if k == 3 else str(v)) for k, v in enumerate(r)))
+        for m in modes:
+            obs[m] = run_mode(F, case, m)
     return obs
 
 
 def run_impl(cases):
     F = fixture()
     out = []
-    for c in cases:
-        try:
-            out.append(run_case(F, c))
-        except Exception as e:
-            out.append({'crash': '%s: %s' % (type(e).__name__, e)})
+    try:
+        for c in cases:
+            try:
+                out.append(run_case(F, c))
+            except Exception as e:
+                out.append({'crash': '%s: %s' % (type(e).__name__, e)})
+    finally:
+        cleanup_files(F)
     return out
 
 
@@ -889,11 +1144,16 @@ def index_kws(q):
     return [[names[0], q['s']], [names[1], q['fk']]]
 
 
-def coq_query(q, o):
+def coq_conn(c):
+    return 'Nn' if c is None else '(Sm %d%%N)' % c
+
+
+def coq_query(q, o, cid=None, bind=None):
+    """cid: the number of the per-call connection (None: no connection is given); bind: see bind_of"""
     if q['k'] == 'alt':
-        return '(QAltId %s)' % coq_kval(q['v'])
+        return '(QAltId %s %s)' % (coq_kval(q['v']), coq_conn(cid))
     if q['k'] == 'index':
-        return '(QIndex %s %s)' % (coq_oby(q['dflt']), coq_kws(index_kws(q)))
+        return '(QIndex %s %s %s)' % (coq_oby(q['dflt']), coq_kws(index_kws(q)), coq_conn(cid))
     src = q['src']
     if src[0] == 'select':
         s = '(SSelect %s %s %s %s)' % (coq_where(src[1]), coq_oby(src[2]), str(bool(src[3])).lower(), str(bool(src[4])).lower())
@@ -909,8 +1169,11 @@ def coq_query(q, o):
         f = '(FAgg %s %s)' % ({'sum': 'MSum', 'min': 'MMin', 'max': 'MMax', 'avg': 'MAvg'}[fin[1]], coq_atom(fin[2]))
     else:
         f = '(FGetOne %s)' % str(bool(fin[1])).lower()
-    return '(QSel %s %s [%s] (%s, %s) %s)' % (coq_oby(q['dflt']), s, '; '.join(coq_call(c) for c in q['calls']),
-                                            coq_pv(win[0]), coq_pv(win[1]), f)
+    calls = ['(Bc %s)' % coq_call(c) for c in q['calls']]
+    if cid is not None and bind is not None:
+        calls.insert(bind, '(BConnection %s)' % coq_conn(cid))
+    return '(QSel %s %s %s [%s] (%s, %s) %s)' % (coq_oby(q['dflt']), s, coq_conn(cid if bind is None else None), '; '.join(calls),
+                                               coq_pv(win[0]), coq_pv(win[1]), f)
 
 
 def coq_res(r):
@@ -955,12 +1218,47 @@ def batches(case):
     return [st[1] for st in case['steps'] if st[0] == 'q']
 
 
+def coq_rows(rows):
+    return '[%s]' % '; '.join(coq_row(r) for r in rows)
+
+
+def coq_wr(w):
+    return '(WPut (%s))' % coq_row(w[1]) if w[0] == 'put' else '(WDel %s)' % z(w[1])
+
+
+def modes_of(o):
+    return [m for m in MODES if m == 'class' or m in o]
+
+
+def mode_obs(o, m):
+    return o if m == 'class' else o[m]
+
+
+COQ_MODES_EVERY = 3
+
+
+def coq_modes(c, o):
+    """the oracle judges every mode of every case; the model is evaluated inside Coq on mode class of every case and on
+    the other modes of every third case (by a checksum of the case), which keeps the quick tier inside its time budget"""
+    if zlib.crc32(json.dumps(c, sort_keys=True).encode()) % COQ_MODES_EVERY == 0:
+        return modes_of(o)
+    return ['class']
+
+
 def coq_case(c, o):
     snaps = []
-    for qs, sn in zip(batches(c), o['snaps']):
-        rows = '[%s]' % '; '.join(coq_row(r) for r in sn['rows'])
-        pairs = '[%s]' % ';\n   '.join('(%s, %s)' % (coq_query(q, ob), coq_obs(ob)) for q, ob in zip(qs, sn['res']))
-        snaps.append('mksnap %s\n  %s' % (rows, pairs))
+    for m in coq_modes(c, o):
+        cid = None if m == 'class' else CONN_ID[m]
+        for qs, sn in zip(batches(c), mode_obs(o, m)['snaps']):
+            if m == 'class':
+                views, ws = [sn['rows']], []
+            elif m == 'percall':
+                views, ws = [sn['other'], sn['rows']], []
+            else:
+                views, ws = [sn['other'], sn['committed'], sn['rows']], sn['writes']
+            pairs = '[%s]' % ';\n   '.join('(%s, %s)' % (coq_query(q, ob, cid, bind_of(q, qi)), coq_obs(ob))
+                                           for qi, (q, ob) in enumerate(zip(qs, sn['res'])))
+            snaps.append('mksnap [%s] [%s]\n  %s' % ('; '.join(coq_rows(v) for v in views), '; '.join(coq_wr(w) for w in ws), pairs))
     return '[%s]' % ';\n '.join(snaps)
 
 
@@ -1179,20 +1477,69 @@ def judge(q, o, rows):
     return None if res == want else '%s(%s) = %r, over the rows of the list it is %r' % (m, c, res, want)
 
 
+MODE_TEXT = {
+    'class': None,
+    'percall': 'with a per-call connection to a second (file) database',
+    'txn': 'through a Transaction with uncommitted writes',
+}
+
+
+def apply_writes(committed, writes):
+    """the committed rows with the transaction's writes applied in order (by id)"""
+    t = {r[0]: list(r) for r in committed}
+    for w in writes:
+        if w[0] == 'put':
+            t[w[1][0]] = list(w[1])
+        else:
+            t.pop(w[1], None)
+    return sorted(t.values(), key=lambda r: r[0])
+
+
+def bound_how(q, qi, mode):
+    if mode == 'class':
+        return None
+    b = bind_of(q, qi)
+    return 'connection= keyword' if b is None else '.connection() after %d calls of the chain' % b
+
+
 def failures(case, obs):
     out = []
-    for bi, (qs, sn) in enumerate(zip(batches(case), obs['snaps'])):
-        for qi, (q, o) in enumerate(zip(qs, sn['res'])):
-            msg = judge(q, o, sn['rows'])
-            if msg:
-                out.append({'batch': bi, 'query': qi, 'q': q, 'observed': o, 'rows': sn['rows'], 'what': msg})
+    for m in modes_of(obs):
+        mo = mode_obs(obs, m)
+        for bi, (qs, sn) in enumerate(zip(batches(case), mo['snaps'])):
+            base = {'mode': m, 'batch': bi, 'rows': sn['rows']}
+            if m == 'txn':
+                base.update(committed=sn['committed'], writes=sn['writes'])
+                # the harness's own account: nothing written inside the open transaction is visible outside it, and
+                # the transaction sees the committed rows with its own writes applied
+                if sorted(sn['committed']) != sorted(sn['committed0']):
+                    out.append(dict(base, query=None, q=None, observed=None,
+                                    what='a write made inside the open transaction is visible to another connection: '
+                                         'committed rows were %r, are now %r' % (sn['committed0'], sn['committed'])))
+                elif apply_writes(sn['committed0'], sn['writes']) != sorted(sn['rows'], key=lambda r: r[0]):
+                    out.append(dict(base, query=None, q=None, observed=None,
+                                    what='the transaction does not see the committed rows with its own writes applied: it sees %r, '
+                                         'expected %r' % (sn['rows'], apply_writes(sn['committed0'], sn['writes']))))
+            for qi, (q, o) in enumerate(zip(qs, sn['res'])):
+                msg = judge(q, o, sn['rows'])
+                if msg:
+                    f = dict(base, query=qi, q=q, observed=o, what=msg)
+                    if m != 'class':
+                        f['bound_by'] = bound_how(q, qi, m)
+                        f['what'] = '[%s (%s)] %s' % (MODE_TEXT[m], f['bound_by'], msg)
+                        # does the answer describe what ANOTHER connection sees?
+                        for name, other in (('the committed rows', sn.get('committed')), ('the class\'s own database', sn['other'])):
+                            if other is not None and judge(q, o, other) is None:
+                                f['what'] += ' -- the answer is right for %s, which this connection must not see' % name
+                                break
+                    out.append(f)
     return out
 
 
 def finding_of(f):
     """the known-finding class of one failure, or None"""
     q, o = f['q'], f['observed']
-    if q.get('k') != 'sel' or q.get('slice') is None:
+    if q is None or q.get('k') != 'sel' or q.get('slice') is None:
         return None
     win = o.get('win') or [None, None]
     # (count() on an empty window [..:0] answering the full count was repaired in /repo ce48805: no longer a known finding)
@@ -1212,9 +1559,13 @@ def oracle(case, obs):
         return None
     unknown = [f for f in fs if finding_of(f) is None]
     f = (unknown or fs)[0]
-    return {'what': f['what'], 'batch': f['batch'], 'query': f['query'], 'q': f['q'], 'observed': f['observed'],
-            'rows': f['rows'], 'failures': len(fs), 'unexplained': len(unknown),
-            'finding': None if unknown else finding_of(f)}
+    r = {'what': f['what'], 'mode': f['mode'], 'batch': f['batch'], 'query': f['query'], 'q': f['q'], 'observed': f['observed'],
+         'rows': f['rows'], 'failures': len(fs), 'unexplained': len(unknown),
+         'finding': None if unknown else finding_of(f)}
+    for k in ('bound_by', 'committed', 'writes'):
+        if k in f:
+            r[k] = f[k]
+    return r
 
 
 def classify(case, obs, f):
@@ -1256,7 +1607,8 @@ def key(case):
 
 def distribution(cases, obs):
     d = {'snapshots': 0, 'queries': 0, 'by_kind': {}, 'by_fin': {}, 'by_result': {}, 'rows_per_snapshot': {},
-         'reversed_calls': {}, 'order_shape': {}, 'selectBy_null_kw': 0, 'distinct': 0, 'windowed': 0, 'ops': {}, 'ops_refused': 0}
+         'reversed_calls': {}, 'order_shape': {}, 'selectBy_null_kw': 0, 'distinct': 0, 'windowed': 0, 'ops': {}, 'ops_refused': 0,
+         'connection_modes': {}}
     for c, o in zip(cases, obs):
         if not isinstance(o, dict) or 'snaps' not in o:
             continue
@@ -1288,6 +1640,33 @@ def distribution(cases, obs):
                     d['distinct'] += 1
                 if q['slice'] is not None:
                     d['windowed'] += 1
+        # connection modes: how many queries ran through another connection, and how many of their (correct) answers
+        # would be WRONG for the rows another connection sees (so that leaving the bound connection shows)
+        for m in ('percall', 'txn'):
+            if m not in o:
+                continue
+            dm = d['connection_modes'].setdefault(m, {'snapshots': 0, 'queries': 0, 'bound_by_connection_call': 0,
+                                                      'answer_differs_from_class_database': 0})
+            if m == 'txn':
+                for k in ('view_differs_from_committed', 'answer_differs_from_committed', 'writes_in_transaction',
+                          'rows_inserted', 'rows_updated_or_rewritten', 'rows_deleted'):
+                    dm.setdefault(k, 0)
+            for qs, sn in zip(batches(c), o[m]['snaps']):
+                dm['snapshots'] += 1
+                if m == 'txn':
+                    dm['view_differs_from_committed'] += sorted(sn['rows']) != sorted(sn['committed'])
+                    dm['writes_in_transaction'] += len(sn['writes'])
+                    old = {r[0] for r in sn['committed']}
+                    new = {r[0] for r in sn['rows']}
+                    dm['rows_inserted'] += len(new - old)
+                    dm['rows_deleted'] += len(old - new)
+                    dm['rows_updated_or_rewritten'] += sum(1 for r in sn['rows'] if r[0] in old and r not in sn['committed'])
+                for qi, (q, ob) in enumerate(zip(qs, sn['res'])):
+                    dm['queries'] += 1
+                    dm['bound_by_connection_call'] += bind_of(q, qi) is not None
+                    dm['answer_differs_from_class_database'] += judge(q, ob, sn['other']) is not None
+                    if m == 'txn':
+                        dm['answer_differs_from_committed'] += judge(q, ob, sn['committed']) is not None
     return d
 
 
